@@ -60,11 +60,11 @@ static std::vector<Op> buildAlphabet(const std::string& name, Limits& L, const s
         for (auto t : {"app", "n", "n+2", "last"}) A.push_back(opSubmitStored(0, t, L));
     } else if (name == "c07") {     // C07: object states x deviations
         L.maxFrames = 2; L.maxPoints = 3; L.maxChans = 2;
-        for (auto n : {"AB", "A"}) A.push_back(opPoint(n, L));   // one label is a proper prefix of the other
+        for (auto n : {"AB", "A", "C"}) A.push_back(opPoint(n, L));   // one label is a proper prefix of the other
         for (auto n : {"a", "ab"}) A.push_back(opAnalog(n, L));
         for (float r : {0.f, 100.f}) A.push_back(opRate("POINT", r));
         for (float r : {0.f, 200.f}) A.push_back(opRate("ANALOG", r));
-        for (auto d : {"ok", "pt_missing", "pt_extra", "pt_renamed", "pt_renamed_first", "pt_dup", "pt_perm", "pt_none", "ch_missing", "ch_extra", "ch_renamed", "sub_missing", "sub_extra", "an_none", "empty"})
+        for (auto d : {"ok", "pt_missing", "pt_extra", "pt_renamed", "pt_renamed_first", "pt_renamed_mid", "pt_dup", "pt_perm", "pt_none", "ch_missing", "ch_extra", "ch_renamed", "sub_missing", "sub_extra", "an_none", "empty"})
             for (auto t : {"app", "0", "n+1"}) A.push_back(opFrame(d, t, 0, L));
         for (auto w : {"both", "pt", "an"}) A.push_back(opFrameFree(w, 0, L));
         A.push_back(opFrameEmpty(L));
